@@ -10,8 +10,8 @@ PROP = {
     'evals': ['agrees', 'c19_ok'],
     # the generator modes that reproduce the known findings F19a (--slash 1: parent/child handles with '/')
     # and F19b (--readd 1: publisher removed and added again at the server)
-    'extra': {'quick': {'histories': 8, 'ops': 45, 'slash': 0, 'readd': 0},
-              'thorough': {'histories': 64, 'ops': 100, 'slash': 0, 'readd': 0}},
+    'extra': {'quick': {'histories': 8, 'ops': 45, 'slash': 1, 'readd': 1},
+              'thorough': {'histories': 64, 'ops': 100, 'slash': 1, 'readd': 1}},
     'replay_header': S_HEADER,
     'replay_footer': "Eval vm_compute in (failing agrees base_index cases).\nEval vm_compute in (failing c19_ok base_index cases).",
     'stats_keys': ['histories', 'ops_per_history', 'slash_handles', 'publisher_readd', 'nontrivial'],
